@@ -1,5 +1,235 @@
-import Sio.Model.Client
+/-
+  C09 — Client events and acknowledgements: one handler, one ACK, callback once.
+
+  Model: Sio/Model/Client.lean (K7).  All statements are about `step` / `run` of that model, for
+  every handler registry `cfg`, every state or every history (lists of inputs of any length).
+  Helper lemmas: Sio/Lemmas/Client*.lean.
+-/
+import Sio.Lemmas.ClientAck
 namespace Sio.C09
-open Sio.Client
-theorem placeholder_stub : True := trivial
+open Sio Sio.Client
+
+/-- the `_trigger_event` records of a trace -/
+def trigs (os : List Out) : List (Str × Ns × Option (Slot × List J)) :=
+  os.filterMap (fun o => match o with | .trig ev n tgt => some (ev, n, tgt) | _ => none)
+
+/-- the packets handed to the transport -/
+def sends (os : List Out) : List Packet :=
+  os.filterMap (fun o => match o with | .send p => some p | _ => none)
+
+/-- what the handler responsible for `(ns, name, args)` returns (`None` when there is none) -/
+def retOf (cfg : Cfg) (n : Ns) (name : Str) (args : List J) : Data :=
+  match cfg.resolve n name args with
+  | some (slot, a) => cfg.ret slot a
+  | none => .none
+
+theorem handleEvent_spec (cfg : Cfg) (c : Cli) (ns : Option Ns) (id : Option Nat) (name : Str)
+    (args : List J) :
+    (handleEvent cfg c ns id (some (.arr (.str name :: args)))).1 = c
+    ∧ trigs (handleEvent cfg c ns id (some (.arr (.str name :: args)))).2
+        = [(name, nsOr ns, cfg.resolve (nsOr ns) name args)]
+    ∧ sends (handleEvent cfg c ns id (some (.arr (.str name :: args)))).2
+        = (match id with
+           | none => []
+           | some i => if c.eio = .connected
+               then [evPacket ACK (.arr (retOf cfg (nsOr ns) name args).pack) (nsOr ns) (some i)] else []) := by
+  refine ⟨handleEvent_state' _ _ _ _ _, ?_, ?_⟩
+  · unfold handleEvent trigger
+    cases id <;> cases h : cfg.resolve (nsOr ns) name args <;> simp [trigs, h, sendPkt] <;> split <;> simp
+  · unfold handleEvent trigger retOf
+    cases id <;> cases h : cfg.resolve (nsOr ns) name args <;> simp [sends, h, sendPkt] <;> split <;> simp
+
+/-- **C09.invoke_once** — an EVENT the server sends on namespace `ns` (no binary packet pending)
+    runs `_trigger_event` exactly once, for that namespace and name, with the event's arguments:
+    the responsible handler (`cfg.resolve`) is invoked once with them, and nothing is invoked when
+    no handler is responsible (`tgt = none`).  The client state does not change. -/
+theorem invoke_once (cfg : Cfg) (c : Cli) (raw : J) (ns : Option Ns) (id : Option Nat) (name : Str)
+    (args : List J) (hb : c.binbuf = none) (he : c.eio = .connected) :
+    let r := deliver cfg c (.msg raw (.ok (⟨EVENT, ns, id, some (.arr (.str name :: args))⟩, 0)))
+    r.1 = c ∧ trigs r.2 = [(name, nsOr ns, cfg.resolve (nsOr ns) name args)] := by
+  have h := handleEvent_spec cfg c ns id name args
+  have hp : deliver cfg c (.msg raw (.ok (⟨EVENT, ns, id, some (.arr (.str name :: args))⟩, 0)))
+      = handleEvent cfg c ns id (some (.arr (.str name :: args))) := by
+    simp [deliver, he, onMessage, hb, isBinType, handlePkt, EVENT, CONNECT, DISCONNECT, BINARY_EVENT,
+      BINARY_ACK]
+  simp only [hp]
+  exact ⟨h.1, h.2.1⟩
+
+/-- **C09.invoke_once** for a BINARY_EVENT: the attachment that completes the packet dispatches
+    the reassembled event exactly once. -/
+theorem invoke_once_binary (cfg : Cfg) (c : Cli) (raw : J) (d : Except Err (Packet × Nat))
+    (pt : Partial) (pk : Packet) (name : Str) (args : List J)
+    (hb : c.binbuf = some pt) (he : c.eio = .connected)
+    (ha : addAttachment pt raw = .ok (.complete pk)) (ht : pk.type = BINARY_EVENT)
+    (hd : pk.data = some (.arr (.str name :: args))) :
+    let r := deliver cfg c (.msg raw d)
+    r.1 = { c with binbuf := none }
+    ∧ trigs r.2 = [(name, nsOr pk.nsp, cfg.resolve (nsOr pk.nsp) name args)] := by
+  have h := handleEvent_spec cfg { c with binbuf := none } pk.nsp pk.id name args
+  have hp : deliver cfg c (.msg raw d)
+      = handleEvent cfg { c with binbuf := none } pk.nsp pk.id (some (.arr (.str name :: args))) := by
+    simp [deliver, he, onMessage, hb, ha, ht, hd]
+  simp only [hp]
+  exact ⟨h.1, h.2.1⟩
+
+/-- **C09.ack_unconditional** — an event carrying an id is answered with exactly one ACK bearing that
+    id and the event's namespace and carrying the handler's return value (`None` as no arguments,
+    a tuple as several, anything else as one) — also when no handler exists (`retOf = None`,
+    payload `[]`); an event without id is not answered. -/
+theorem ack_unconditional (cfg : Cfg) (c : Cli) (raw : J) (ns : Option Ns) (id : Option Nat)
+    (name : Str) (args : List J) (hb : c.binbuf = none) (he : c.eio = .connected) :
+    sends (deliver cfg c (.msg raw (.ok (⟨EVENT, ns, id, some (.arr (.str name :: args))⟩, 0)))).2
+      = match id with
+        | none => []
+        | some i => [evPacket ACK (.arr (retOf cfg (nsOr ns) name args).pack) (nsOr ns) (some i)] := by
+  have h := handleEvent_spec cfg c ns id name args
+  have hp : deliver cfg c (.msg raw (.ok (⟨EVENT, ns, id, some (.arr (.str name :: args))⟩, 0)))
+      = handleEvent cfg c ns id (some (.arr (.str name :: args))) := by
+    simp [deliver, he, onMessage, hb, isBinType, handlePkt, EVENT, CONNECT, DISCONNECT, BINARY_EVENT,
+      BINARY_ACK]
+  rw [hp, h.2.2]
+  cases id <;> simp [he]
+
+/-- the ACK packet: id, namespace and payload; promoted to BINARY_ACK exactly when the return value
+    holds bytes (what `Packet(ACK, …)` does, `Codec.mkPacket`) -/
+theorem ack_packet (d : J) (n : Ns) (i : Nat) :
+    (evPacket ACK d n (some i)).id = some i ∧ (evPacket ACK d n (some i)).nsp = some n
+    ∧ (evPacket ACK d n (some i)).data = some d
+    ∧ mkPacket true ACK (some d) (some n) (some i) none = .ok (evPacket ACK d n (some i)) := by
+  unfold evPacket mkPacket
+  cases h : d.isBinary <;> simp [h, ACK, EVENT]
+
+/-- **C09.id_unique** — along every history the id invariant holds … -/
+theorem id_invariant (cfg : Cfg) (h : List Input) : IdInv (run cfg init h).1 :=
+  (cbRun_run cfg h init).inv IdInv_init
+
+/-- … hence every emit with a callback (and every `call()`) on a connected namespace carries, on its
+    EVENT packet, an id that no outstanding callback of that namespace has, and stores the callback
+    under it; no (namespace, id) is ever stored twice. -/
+theorem id_unique (cfg : Cfg) (h : List Input) (ev : Str) (d : Data) (ns : Option Ns) (k : Cb)
+    (reacts : List Ev) :
+    let c := (run cfg init h).1
+    hasNs c (nsOr ns) = true → c.eio = .connected →
+    ∃ i, (sends (emitCore cfg c ev d ns (some k) reacts).2.1).head?
+            = some (evPacket EVENT (.arr (.str ev :: d.pack)) (nsOr ns) (some i))
+       ∧ (∀ e ∈ c.cbs, e.1 = nsOr ns → e.2.1 ≠ i)
+       ∧ (nsOr ns, i, k) ∈ (genId c (nsOr ns) k).1.cbs := by
+  intro c hn he
+  refine ⟨(genId c (nsOr ns) k).2, ?_, genId_fresh (id_invariant cfg h) (nsOr ns) k, ?_⟩
+  · have he' : (genId c (nsOr ns) k).1.eio = .connected := he
+    unfold emitCore
+    simp [hn, he', sends]
+  · simp [genId]
+
+/-- the tokens of the callback invocations of a trace -/
+def firedToks (os : List Out) : List Nat := (cbOuts os).map (fun e => e.1.tok)
+
+/-- **C09.callback_at_most_once** — in a history whose callbacks are distinct objects (distinct
+    tokens), every callback is invoked at most once, and only callbacks that were registered are
+    invoked — whatever ACKs (correct, repeated, unknown, for another namespace) arrive, and
+    across disconnections and reconnections. -/
+theorem callback_at_most_once (cfg : Cfg) (h : List Input) (hd : (histToks h).Nodup) :
+    (firedToks (run cfg init h).2).Nodup
+    ∧ ∀ t ∈ firedToks (run cfg init h).2, t ∈ histToks h := by
+  have hr := cbRun_run cfg h init
+  have hc : ∀ t, (firedToks (run cfg init h).2).count t ≤ (histToks h).count t := by
+    intro t
+    have := hr.count t
+    have hinit : tokCnt t init.cbs = 0 := rfl
+    unfold outCnt at this
+    unfold firedToks
+    omega
+  refine ⟨?_, ?_⟩
+  · rw [List.nodup_iff_count]
+    intro t
+    have h1 := hc t
+    have h2 := List.nodup_iff_count.mp hd t
+    omega
+  · intro t ht
+    have h1 := hc t
+    have : 0 < (firedToks (run cfg init h).2).count t := List.count_pos_iff.mpr ht
+    exact List.count_pos_iff.mp (by omega)
+
+/-- … and a callback runs only for an ACK bearing its namespace and id, with the acknowledged
+    arguments: an ACK `(ns, id, args)` invokes exactly the callback stored under `(ns, id)` and
+    removes it; every other piece of the client invokes no callback (`CbStep`, Sio/Lemmas/ClientAck). -/
+theorem callback_on_matching_ack (c : Cli) (ns : Option Ns) (i : Nat) (args : List J)
+    (e : Ns × Nat × Cb) (hf : c.cbs.find? (isKey (nsOr ns) i) = some e) :
+    cbOuts (handleAck c ns (some i) (some (.arr args))).2 = [(e.2.2, args)]
+    ∧ (handleAck c ns (some i) (some (.arr args))).1.cbs = c.cbs.filter (fun x => !isKey (nsOr ns) i x) := by
+  unfold handleAck
+  simp [hf, ackOuts, cbOuts_cons, cbOf]
+
+theorem callback_only_by_ack (cfg : Cfg) (c : Cli) (e : Ev) :
+    CbStep c (deliver cfg c e).1 (deliver cfg c e).2 := cbStep_deliver cfg c e
+
+/-- **C09.unknown_ack_inert** (full strength: any id, 0 included) — an ACK whose (namespace, id)
+    matches no outstanding callback changes nothing and produces nothing. -/
+theorem unknown_ack_inert (cfg : Cfg) (c : Cli) (raw : J) (ns : Option Ns) (id : Option Nat)
+    (data : Option J) (hb : c.binbuf = none)
+    (hu : ∀ i, id = some i → c.cbs.find? (isKey (nsOr ns) i) = none) :
+    deliver cfg c (.msg raw (.ok (⟨ACK, ns, id, data⟩, 0))) = (c, []) := by
+  cases he : c.eio with
+  | disconnected => simp [deliver, he]
+  | connected =>
+    have hp : deliver cfg c (.msg raw (.ok (⟨ACK, ns, id, data⟩, 0))) = handleAck c ns id data := by
+      simp [deliver, he, onMessage, hb, isBinType, handlePkt, ACK, EVENT, CONNECT, DISCONNECT,
+        BINARY_EVENT, BINARY_ACK]
+    rw [hp]
+    unfold handleAck
+    cases id with
+    | none => rfl
+    | some i => simp [hu i rfl]
+
+/-- **C09.call_result** — `call()` on a namespace that is not connected raises `BadNamespaceError`;
+    otherwise it returns `None`, the single value, or the tuple its own callback was invoked with
+    during the call, and raises `TimeoutError` if it was not invoked. -/
+theorem call_result (cfg : Cfg) (c : Cli) (ev : Str) (d : Data) (ns : Option Ns) (tok : Nat)
+    (reacts : List Ev) :
+    let core := emitCore cfg c ev d ns (some ⟨tok, .call⟩) reacts
+    let r := call cfg c ev d ns tok reacts
+    (hasNs c (nsOr ns) = false → r = (c, [.raised .badNamespace]))
+    ∧ (hasNs c (nsOr ns) = true →
+        r.1 = core.1 ∧
+        r.2 = core.2.1 ++ [match callArgs tok core.2.1 with
+                           | some [] => .result .none
+                           | some [x] => .result (.one x)
+                           | some (x :: y :: zs) => .result (.tuple (x :: y :: zs))
+                           | none => .raised .timeout]) := by
+  refine ⟨?_, ?_⟩
+  · intro hn
+    simp [call, emitCore, hn]
+  · intro hn
+    have hok : (emitCore cfg c ev d ns (some ⟨tok, .call⟩) reacts).2.2 = true := by
+      unfold emitCore; simp only [hn]; simp; split <;> rfl
+    unfold call
+    simp only [hok, Bool.not_true, Bool.false_eq_true, if_false]
+    cases hca : callArgs tok (emitCore cfg c ev d ns (some ⟨tok, .call⟩) reacts).2.1 with
+    | none => simp
+    | some a =>
+      match a with
+      | [] => simp [unpack]
+      | [x] => simp [unpack]
+      | x :: y :: zs => simp [unpack]
+
+/-! ### non-vacuity: the hypotheses above are met by concrete states -/
+
+def cfg1 : Cfg := ⟨fun n ev a => if ev = ['m'] then some (⟨false, n, ev⟩, a) else none, fun _ a => .tuple a⟩
+def nsA : Ns := ['/', 'a']
+def accept (n : Ns) (s : Str) : Ev :=
+  .msg (.str []) (.ok (⟨CONNECT, some n, none, some (.obj [(sSid, .str s)])⟩, 0))
+/-- connected to `/a` with one callback outstanding -/
+def hist1 : List Input :=
+  [.connect [nsA] ⟨false, none⟩ true (.accept ['E']) [[accept nsA ['s']]],
+   .emit ['m'] .none (some nsA) (some ⟨7, .fn⟩) []]
+
+example : (run cfg1 init hist1).1.binbuf = none ∧ (run cfg1 init hist1).1.eio = .connected
+    ∧ hasNs (run cfg1 init hist1).1 nsA = true ∧ (histToks hist1).Nodup
+    ∧ (run cfg1 init hist1).1.cbs.length = 1 := by decide
+
+/-- the ACK fires the callback, a second one is inert -/
+example : firedToks (run cfg1 init (hist1 ++ [
+      .ev (.msg (.str []) (.ok (⟨ACK, some nsA, some 1, some (.arr [])⟩, 0))),
+      .ev (.msg (.str []) (.ok (⟨ACK, some nsA, some 1, some (.arr [])⟩, 0)))])).2 = [7] := by decide
+
 end Sio.C09
